@@ -222,8 +222,8 @@ def check_same_image(L, wa, wb, pa=None, pb=None):
 class PurityScenario(Scenario):
     name = 'purity'
     prop = 'C10'
-    quick_runs = 1200
-    thorough_runs = 100000
+    quick_runs = 900
+    thorough_runs = 90000
     audit_every = 1
     rule = ('each run = K in 2..4 simulated callers running pipeline fragments (optics, FFT with scratch, tilt fitting, '
             'DFTs with repeated shapes, Zernike, array utilities, shapes, detector chain, seeded noise models, spectra) over a '
